@@ -90,10 +90,17 @@ def _search(quick=True, seed=0, only=None):
             m.forget_threat("zebra" if not is_regex else r"z.bra")
             r2 = m.filter(Signal(content="a ZEBRA b"))
             m2 = Membrane(silent=True)
-            m2.import_antibodies([ThreatSignature("quagga", ThreatLevel.CRITICAL, "imp")])
+            m2.import_antibodies([ThreatSignature("quagga" if not is_regex else r"qu.gg+a", ThreatLevel.CRITICAL, "imp", is_regex)])
             r3 = m2.filter(Signal(content="the Quagga"))
-        if r.allowed or r2.allowed or r3.allowed:
-            return n, f"learned/imported signature not enforced or memory lost (regex={is_regex}): {r.allowed, r2.allowed, r3.allowed}"
+            # exported from a donor that learned it, imported by a fresh membrane
+            donor = Membrane(silent=True)
+            donor.learn_threat("okapi" if not is_regex else r"ok\s*api", ThreatLevel.DANGEROUS, is_regex=is_regex)
+            m3 = Membrane(silent=True)
+            m3.import_antibodies(donor.export_antibodies())
+            r4 = m3.filter(Signal(content="an OKAPI here"))
+        if r.allowed or r2.allowed or r3.allowed or r4.allowed or r4.threat_level != ThreatLevel.DANGEROUS:
+            return n, (f"learned/imported signature (regex={is_regex}) not enforced or memory lost: learned {r.allowed}, after forget {r2.allowed}, "
+                       f"imported {r3.allowed}, exported+imported {r4.allowed} level {r4.threat_level}")
     # rate limit with a fake clock
     import operon_ai.organelles.membrane as mm
     for limit in ((1, 2, 3) if only != "innate" else ()):
